@@ -186,7 +186,13 @@ def dispatch_exhaustive(ct: Container, rep, rule="dispatch-exhaustive"):
             rep.fail(rule, mod, "_get_block_class", st, f"BlockType.{m} maps to `{norm(v)}` which is not a class of the package")
             continue
         ca = prog.class_attr(k, "type")
-        if ca is not None and norm(ca[1]) == f"BlockType.{m}":
+        stub = any(b.name == "NotImplementedBlock" for b in prog.mro(k))
+        impl = [c2 for mm in prog.modules.values() for c2 in mm.classes.values() if c2 is not k and not any(b.name == "NotImplementedBlock" for b in prog.mro(c2))
+                and (prog.class_attr(c2, "type") or (None, None))[1] is not None and norm(prog.class_attr(c2, "type")[1]) == f"BlockType.{m}" and c2.get("_build") is not None]
+        if ca is not None and norm(ca[1]) == f"BlockType.{m}" and stub and impl:
+            rep.fail(rule, mod, "_get_block_class", st, f"BlockType.{m} is dispatched to the not-implemented stub {k.module.name}.{k.name} although {impl[0].module.name}.{impl[0].name} implements that block type: such blocks can no longer be read",
+                     construct=f"_get_block_class :: {m} -> stub {k.module.name}.{k.name}")
+        elif ca is not None and norm(ca[1]) == f"BlockType.{m}":
             rep.ok(rule, f"BlockType.{m} -> {k.module.name}.{k.name} (type == BlockType.{m})", nontrivial=True)
         else:
             rep.fail(rule, mod, "_get_block_class", st, f"BlockType.{m} is dispatched to {k.module.name}.{k.name} whose class attribute type is `{norm(ca[1]) if ca else None}`",
@@ -197,6 +203,7 @@ def dispatch_exhaustive(ct: Container, rep, rule="dispatch-exhaustive"):
 def run(prog, rep):
     ct = Container(prog)
     cd = Codecs(prog)
+    cd.flag_errors(rep)
     rep.explanation = (
         "frame condition at the level of which entry fields and which bytes each statement may touch: entry-frame "
         "(only .offset of surviving entries is assigned; whole-entry rewrite through a TdfEntry codec proved symmetric "
@@ -204,9 +211,13 @@ def run(prog, rep):
         "comment-carry (def-use + dominance in replace_block), dispatch-exhaustive (every BlockType member maps to the "
         "class whose type attribute is that member)."
     )
-    entry_frame(ct, cd, rep)
-    M.tail_move(ct, rep, rule="tail-move-order", shift_rule="shift-consistency")
-    comment_carry(ct, rep)
-    dispatch_exhaustive(ct, rep)
-    M.get_block_reads_disk(ct, rep)
+    rep.attempt(entry_frame, ct, cd, rep)
+    rep.attempt(M.tail_move, ct, rep, rule="tail-move-order", shift_rule="shift-consistency")
+    rep.attempt(comment_carry, ct, rep)
+    rep.attempt(dispatch_exhaustive, ct, rep)
+    rep.attempt(M.get_block_reads_disk, ct, rep)
+    # a block added after a removal must not land on another block's bytes: the free slots point at end of data
+    rep.attempt(M.offset_provenance, ct, rep)
+    rep.attempt(M.repoint_later, ct, rep)
+    rep.attempt(M.shift_loop, ct, rep)
     rep.not_decided += ["byte equality of moved payloads under concrete histories", "datetime <-> 32-bit timestamp corner cases (DST folds, 2038)"]
